@@ -43,10 +43,10 @@ def gen_cases(tier, seed):
         c = {"op": "bdl", "data": pay(rng, n), "blks": rng.choice(BLKSETS), "crc": rng.random() < 0.7,
              "srvcrc": rng.random() < 0.8, "buffering": rng.choice([1024, 1024, 7, 0]),
              "chunks": [n], "seed": rng.randrange(1 << 30)}
-        if c["buffering"] == 0:
+        c.update(kw)
+        if c["buffering"] == 0 and not c.get("raw_reuse"):
             c["chunks"] = None     # raw stream: one write per 7 bytes is the caller's job
             c["buffering"] = 7
-        c.update(kw)
         cases.append(c)
     # undisturbed: every length 1..64, all block-size sets on boundary lengths, long payloads
     for n in range(1, 65):
@@ -66,6 +66,22 @@ def gen_cases(tier, seed):
         for blks in ([[3], [127], [5, 2]] if tier == "quick" else [[3], [127], [5, 2], [1], [2, 7, 1]]):
             for k in range(1, nseg + 1):
                 mk(n, blks=blks, lose_seg=[k], crc=True, srvcrc=True, buffering=1024, chunks=[n])
+    # unbuffered stream fed from one reused chunk buffer, with and without a loss, CRC on and off
+    for n in (7, 14, 15, 30, 64, 100):
+        nseg = (n + 6) // 7
+        for blks in ([127], [3], [2, 5]):
+            for crc in (True, False):
+                mk(n, blks=blks, crc=crc, srvcrc=True, buffering=0, raw_reuse=True)
+                for k in range(1, nseg):
+                    mk(n, blks=blks, crc=crc, srvcrc=True, buffering=0, raw_reuse=True, lose_seg=[k])
+    # buffered stream whose buffer is smaller than a block (several flushes per block), 7-byte writes
+    for n in (42, 63, 100):
+        nseg = (n + 6) // 7
+        for buf in (14, 21):
+            for blks in ([3], [4, 127]):
+                for k in range(1, nseg):
+                    mk(n, blks=blks, crc=(k % 2 == 0), srvcrc=True, buffering=buf,
+                       chunks=[7] * nseg, lose_seg=[k])
     # seeded multi-loss, acknowledge loss
     for _ in range(150 if tier == "quick" else 2500):
         n = rng.randrange(8, 300)
